@@ -23,7 +23,7 @@ def lift {α} (r : Except Err α) (k : α → Except String J) : Except String J
 def ip4View (x : IP4) : J :=
   J.mk [("raw", J.ofBytes x.raw), ("value", J.num x.value), ("str", jtxt x.toStr),
         ("un", J.ofNat (x.toUnsigned true)), ("uh", J.ofNat (x.toUnsigned false)),
-        ("sn", J.num (x.toSigned true)), ("sh", J.num (x.toSigned false))]
+        ("sn", J.num (x.toSigned true)), ("sh", J.num (x.toSigned false)), ("hash", J.num x.hash)]
 
 def getIP4 (j : J) (k : String) : Except String IP4 := do
   match IP4.ofRaw (← j.bytes k) with
@@ -98,6 +98,8 @@ def handle (j : J) : Except String J := do
   | "eth_text" =>
     lift (ethOfText (txt (← j.bytes "t"))) fun b =>
       pure (J.mk [("raw", J.ofBytes b), ("str", jtxt (ethToStr ':' b)), ("dash", jtxt (ethToStr '-' b))])
+  | "eth_seq" =>
+    lift (ethOfSeq (← (← j.get "vals").asInts)) fun b => pure (J.mk [("raw", J.ofBytes b)])
   | "dpid_str" =>
     lift (dpidToStr (← j.nat "d") (← j.boolean "long")) fun s =>
       lift (strToDpid s) fun d => pure (J.mk [("str", jtxt s), ("back", J.ofNat d)])
